@@ -208,6 +208,7 @@ def installed(streams, clock=None, sandbox=None, capture=None, sync_threads=True
     # Fresh process-global loader state for every run.
     fresh_loader_state()
     fresh_validation_state()
+    fresh_class_state()
     if sync_threads:
         from .threads import SyncThreading
         sync = SyncThreading()
@@ -272,6 +273,46 @@ def _restore_container(live, saved):
         live.update(saved)
     elif isinstance(saved, list):
         live[:] = saved
+
+
+_CLASS_IMPORT_STATE = {}
+
+
+def fresh_class_state():
+    """Class-level mutable containers of every class the odml package defines (not only the
+    validation registry) start each run with the content they had when the harness first saw
+    them: whatever a change keeps on a class instead of an instance would otherwise make a
+    run depend on the runs its worker executed before.  Leakage *within* a run is judged."""
+    import inspect
+    import sys as _sys
+    if not _CLASS_IMPORT_STATE:
+        for modname, mod in list(_sys.modules.items()):
+            if mod is None or not (modname == "odml" or modname.startswith("odml.")):
+                continue
+            for cls in list(vars(mod).values()):
+                if inspect.isclass(cls) and str(getattr(cls, "__module__", "")).startswith("odml"):
+                    for name, val in list(vars(cls).items()):
+                        if isinstance(val, (dict, set, list)) and not name.startswith("__"):
+                            _CLASS_IMPORT_STATE.setdefault((cls, name), _copy_container(val))
+    for (cls, name), saved in _CLASS_IMPORT_STATE.items():
+        live = vars(cls).get(name)
+        if type(live) is type(saved):
+            _restore_container(live, saved)
+        else:
+            try:
+                setattr(cls, name, _copy_container(saved))
+            except (AttributeError, TypeError):
+                pass
+    # attributes a change added to a class after the harness first looked: drop what it collected
+    for modname, mod in list(_sys.modules.items()):
+        if mod is None or not (modname == "odml" or modname.startswith("odml.")):
+            continue
+        for cls in list(vars(mod).values()):
+            if inspect.isclass(cls) and str(getattr(cls, "__module__", "")).startswith("odml"):
+                for name, val in list(vars(cls).items()):
+                    if isinstance(val, (dict, set, list)) and not name.startswith("__") and \
+                            (cls, name) not in _CLASS_IMPORT_STATE:
+                        _CLASS_IMPORT_STATE[(cls, name)] = _copy_container(val)
 
 
 def fresh_validation_state():
